@@ -142,6 +142,7 @@ theorem orderState_applyUpdate_other (e : Eng) (u : Update) (j c : Nat)
     by_cases hj : j = i
     · subst hj; cases e.instruments[j]? <;> simp
     · simp [hj]
+  | other => rfl
 
 theorem generateStage_commanded (e : Eng) (cmd : Option ActionOut) (algoC : List CancelReq)
     (algoO : List OpenReq) (refuse : Key → Bool) :
